@@ -314,7 +314,9 @@ Definition pskip (coded : bool) (wt : Z) (s : st) : out :=
         else if d <? cur s' then Panic s'
         else Ok (adv all s')
       else
-        if v >? zlen bs - cur s' - n then Er E_EOF s' else Ok (adv (n + v) s')
+        (* v is a uint64 in the code; the `v <? 0` test is dead for real bytes (0..255) and only
+           there because the list elements of the model are unconstrained integers *)
+        if (v <? 0) || (v >? zlen bs - cur s' - n) then Er E_EOF s' else Ok (adv (n + v) s')
     end
   else Ok s.   (* group / unknown wire types: nothing is consumed, nil is returned *)
 
